@@ -41,7 +41,7 @@ def payload(pairs, rng=None):
 class C13(Prop):
     id = "C13"
     thorough_rounds = 3   # thorough tier: this many independently seeded rounds of the random generators (duplicates dropped)
-    modules = ["H3.Props.C13"]
+    modules = ["H3.Props.C13", "H3.Lemmas.GenAgreeSend"]
     engines = ["set"]
     design_ref = "DESIGN.md section 7, C13"
     level_text = ("Lean theorems over models of frame::Settings::{insert,get,len,encode,decode}, SettingId::{is_supported,"
